@@ -257,10 +257,12 @@ CHECKS = [
              "kernel in harmonic space otherwise (self-adjoint, integral preserving).",
      "design_ref": "DESIGN.md 4/C09"},
     {"property_id": "C34", "engine": "B", "category": "other", "technique": TECH_B + "; fork mode (every Lanczos breakdown decision is a path)",
-     "note": NOTE_B + " ONLY the Lanczos-tridiagonalisation part of the property is claimed (dimension 2, order = dimension). The stochastic log-determinant and both ELBO estimators end in LAPACK / ARPACK eigen-solvers (jnp.linalg.eigh, scipy eigsh) without a closed contract: not covered.",
+     "note": NOTE_B + " The Lanczos-tridiagonalisation and the quadrature-exactness clauses are claimed (dimension 2, order = dimension; jnp.linalg.eigh replaced by the closed-form 2x2 eigendecomposition). Both ELBO estimators (ARPACK eigsh, host code) are NOT covered.",
      "text": "Bounded symbolic verification of nifty.re.num.lanczos.lanczos_tridiag for ALL symmetric 2x2 matrices and start vectors: T is "
              "symmetric tridiagonal, T[0,0] is the Rayleigh quotient of the normalised start vector, and on every path without "
-             "breakdown the basis is orthonormal, T = Q A Q^T, trace(T) = trace(A), det(T) = det(A), i.e. T has the spectrum of A.",
+             "breakdown the basis is orthonormal, T = Q A Q^T, trace(T) = trace(A), det(T) = det(A), i.e. T has the spectrum of A; "
+             "stochastic_logdet_from_lanczos integrates the monomials x^0..x^3 exactly for ALL positive definite 2x2 tridiagonals "
+             "(Gauss quadrature exact at order = dimension).",
      "design_ref": "DESIGN.md 4/C34"},
 ]
 
